@@ -33,10 +33,15 @@ theorem perm_of_map_perm {α β : Type} (f : α → β) :
 theorem finish_spec (h : Heap) (w : WF h) :
     WF (finish h) ∧ (finish h).mark = (finish h).data.length ∧ (finish h).data.Perm h.data := by
   unfold finish
-  split
-  · obtain ⟨a, b, c, d⟩ := heapify_spec h w.1 w.2
+  by_cases hn : needHeapify h = true
+  · rw [if_pos hn]
+    obtain ⟨a, b, c, d⟩ := heapify_spec h w.1 w.2
     exact ⟨⟨by omega, a⟩, by omega, c⟩
-  · have : h.mark = h.data.length := by have := w.1; omega
+  · rw [if_neg hn]
+    have : h.mark = h.data.length := by
+      have := w.1
+      have : ¬ h.mark < h.data.length := fun e => hn ((needHeapify_iff h).mpr e)
+      omega
     exact ⟨w, this, List.Perm.refl _⟩
 
 /-! ### every operation gets exactly one status -/
@@ -97,35 +102,37 @@ theorem handleIdx_eq (h : Heap) (ops : List (Op × Nat)) (hnt : NoPopThrow ops) 
     handleIdx h ops = ⟨finish (pass2 (pass1 h ops).heap (pass1 h ops).dfr).heap,
       (pass1 h ops).log ++ (pass2 (pass1 h ops).heap (pass1 h ops).dfr).log, none⟩ := by
   obtain ⟨hp, hpe⟩ := heapPart_full h hf
-  obtain ⟨lin1, s1, hrun1, hsim1, hab1, hdf1, hp1⟩ := pass1_lin ops hnt h h.data ⟨w, by rw [hp]⟩
-  obtain ⟨lin2, s2, hrun2, hsim2, hab2, hp2⟩ := pass2_lin (pass1 h ops).dfr hdf1 (pass1 h ops).heap s1 hsim1
+  obtain ⟨s1, hrun1, hsim1, hab1, hdf1, hp1⟩ := pass1_lin ops hnt h h.data ⟨w, by rw [hp]⟩
+  obtain ⟨s2, hrun2, hsim2, hab2, hp2⟩ := pass2_lin (pass1 h ops).dfr hdf1 (pass1 h ops).heap s1 hsim1
   simp only [handleIdx, hab1, hab2]
 
 theorem handleIdx_log (h : Heap) (ops : List (Op × Nat)) (hnt : NoPopThrow ops) (w : WF h) (hf : h.mark = h.data.length) :
     ((handleIdx h ops).log.map tag).Perm ops ∧ (handleIdx h ops).abort = none := by
   obtain ⟨hp, hpe⟩ := heapPart_full h hf
-  obtain ⟨lin1, s1, hrun1, hsim1, hab1, hdf1, hp1⟩ := pass1_lin ops hnt h h.data ⟨w, by rw [hp]⟩
+  obtain ⟨s1, hrun1, hsim1, hab1, hdf1, hp1⟩ := pass1_lin ops hnt h h.data ⟨w, by rw [hp]⟩
   rw [handleIdx_eq h ops hnt w hf]
   simp only [List.map_append, pass2_log _ hdf1]
   exact ⟨pass1_log ops hnt h, trivial⟩
 
-/-- value-level linearization of a whole batch -/
-theorem handleIdx_lin_strip (h : Heap) (ops : List (Op × Nat)) (hnt : NoPopThrow ops) (w : WF h) (hf : h.mark = h.data.length) :
-    ∃ lin sf, lin.Perm (strip (handleIdx h ops).log) ∧ specRun h.data lin = some sf ∧
+/-- value-level linearization of a whole batch: the executable order `batchLinV` is a permutation of the
+status log (as operation/result pairs), the sequential spec accepts it from the initial contents, and ends
+with (a permutation of) the final vector -/
+theorem batchLinV_spec (h : Heap) (ops : List (Op × Nat)) (hnt : NoPopThrow ops) (w : WF h) (hf : h.mark = h.data.length) :
+    ∃ sf, (batchLinV h ops).Perm (strip (handleIdx h ops).log) ∧ specRun h.data (batchLinV h ops) = some sf ∧
       sf.Perm (handleIdx h ops).heap.data := by
   obtain ⟨hp, hpe⟩ := heapPart_full h hf
-  obtain ⟨lin1, s1, hrun1, hsim1, hab1, hdf1, hp1⟩ := pass1_lin ops hnt h h.data ⟨w, by rw [hp]⟩
-  obtain ⟨lin2, s2, hrun2, hsim2, hab2, hp2⟩ := pass2_lin (pass1 h ops).dfr hdf1 (pass1 h ops).heap s1 hsim1
+  obtain ⟨s1, hrun1, hsim1, hab1, hdf1, hp1⟩ := pass1_lin ops hnt h h.data ⟨w, by rw [hp]⟩
+  obtain ⟨s2, hrun2, hsim2, hab2, hp2⟩ := pass2_lin (pass1 h ops).dfr hdf1 (pass1 h ops).heap s1 hsim1
   obtain ⟨wfin, _, hfin⟩ := finish_spec _ hsim2.1
   rw [handleIdx_eq h ops hnt w hf]
-  refine ⟨lin1 ++ lin2 ++ pushes (pend (pass2 (pass1 h ops).heap (pass1 h ops).dfr).heap),
-    (pend (pass2 (pass1 h ops).heap (pass1 h ops).dfr).heap).reverse ++ s2, ?_, ?_, ?_⟩
+  refine ⟨(pend (pass2 (pass1 h ops).heap (pass1 h ops).dfr).heap).reverse ++ s2, ?_, ?_, ?_⟩
   · rw [hpe] at hp1
-    simp only [strip, List.map_append, pushes, List.map_nil, List.nil_append] at *
+    simp only [batchLinV, strip, List.map_append, pushes, List.map_nil, List.nil_append] at *
     rw [List.perm_iff_count] at *
     intro a; have := hp1 a; have := hp2 a
     simp only [List.count_append] at *; omega
-  · rw [specRun_append, specRun_append, hrun1]
+  · simp only [batchLinV]
+    rw [specRun_append, specRun_append, hrun1]
     simp only [Option.bind_some, hrun2]
     exact specRun_pushes _ _
   · refine List.Perm.trans ?_ hfin.symm
@@ -134,24 +141,85 @@ theorem handleIdx_lin_strip (h : Heap) (ops : List (Op × Nat)) (hnt : NoPopThro
     rw [← e]
     exact (List.perm_append_comm).trans ((hsim2.2).append (List.reverse_perm _))
 
+theorem handleIdx_lin_strip (h : Heap) (ops : List (Op × Nat)) (hnt : NoPopThrow ops) (w : WF h) (hf : h.mark = h.data.length) :
+    ∃ lin sf, lin.Perm (strip (handleIdx h ops).log) ∧ specRun h.data lin = some sf ∧
+      sf.Perm (handleIdx h ops).heap.data := by
+  obtain ⟨sf, a, b, c⟩ := batchLinV_spec h ops hnt w hf
+  exact ⟨_, sf, a, b, c⟩
+
+/-! ### identities: `assignIds` realises a value-level permutation as a permutation of the log -/
+
+theorem takeEv_spec (v : Op × Res) : ∀ (pool : List Ev), v ∈ strip pool →
+    ∃ e pool', takeEv v pool = some (e, pool') ∧ (e.op, e.res) = v ∧ (e :: pool').Perm pool := by
+  intro pool
+  induction pool with
+  | nil => intro h; simp [strip] at h
+  | cons e es ih =>
+    intro h
+    by_cases he : (e.op, e.res) = v
+    · exact ⟨e, es, by simp [takeEv, he], he, List.Perm.refl _⟩
+    · have hin : v ∈ strip es := by
+        simp only [strip, List.map_cons, List.mem_cons] at h
+        rcases h with h | h
+        · exact absurd h.symm he
+        · exact h
+      obtain ⟨e', pool', h1, h2, h3⟩ := ih hin
+      refine ⟨e', e :: pool', by simp [takeEv, he, h1], h2, ?_⟩
+      exact (List.Perm.swap e e' pool').trans (h3.cons e)
+
+theorem assignIds_spec : ∀ (vs : List (Op × Res)) (pool : List Ev), vs.Perm (strip pool) →
+    ∃ l, assignIds vs pool = some l ∧ l.Perm pool ∧ strip l = vs := by
+  intro vs
+  induction vs with
+  | nil =>
+    intro pool h
+    have : strip pool = [] := List.Perm.eq_nil h.symm
+    have : pool = [] := by simpa [strip] using this
+    exact ⟨[], rfl, by rw [this], rfl⟩
+  | cons v vs ih =>
+    intro pool h
+    have hv : v ∈ strip pool := h.mem_iff.mp (by simp)
+    obtain ⟨e, pool', h1, h2, h3⟩ := takeEv_spec v pool hv
+    have h' : vs.Perm (strip pool') := by
+      have : (v :: vs).Perm (v :: strip pool') := by
+        refine h.trans ?_
+        have := h3.symm.map (fun e : Ev => (e.op, e.res))
+        simpa [strip, h2] using this
+      exact this.cons_inv
+    obtain ⟨l, hl1, hl2, hl3⟩ := ih pool' h'
+    refine ⟨e :: l, by simp [assignIds, h1, hl1], (hl2.cons e).trans h3, ?_⟩
+    simp only [strip, List.map_cons, h2] at hl3 ⊢
+    rw [hl3]
+
+/-- THE per-batch linearization over identified operations, as an executable function: `batchLin h ops` is a
+permutation of the status log of `handle_operations`, its operation/result pairs are `batchLinV h ops`, the
+spec accepts them from the initial contents and ends with a permutation of the final vector. -/
+theorem batchLin_spec (h : Heap) (ops : List (Op × Nat)) (hnt : NoPopThrow ops) (w : WF h) (hf : h.mark = h.data.length) :
+    (batchLin h ops).Perm (handleIdx h ops).log ∧ strip (batchLin h ops) = batchLinV h ops ∧
+    ∃ sf, specRun h.data (strip (batchLin h ops)) = some sf ∧ sf.Perm (handleIdx h ops).heap.data := by
+  obtain ⟨sf, a, b, c⟩ := batchLinV_spec h ops hnt w hf
+  obtain ⟨l, hl1, hl2, hl3⟩ := assignIds_spec _ _ a
+  have e : batchLin h ops = l := by simp [batchLin, hl1]
+  rw [e]
+  exact ⟨hl2, hl3, sf, by rw [hl3]; exact b, c⟩
+
 /-- linearization over identified operations -/
 theorem handleIdx_lin (h : Heap) (ops : List (Op × Nat)) (hnt : NoPopThrow ops) (w : WF h) (hf : h.mark = h.data.length) :
-    ∃ (lin : List Ev) (sf : List Nat), lin.Perm (handleIdx h ops).log ∧ specRun h.data (strip lin) = some sf ∧
+    ∃ (lin : List Ev) (sf : List Elem), lin.Perm (handleIdx h ops).log ∧ specRun h.data (strip lin) = some sf ∧
       sf.Perm (handleIdx h ops).heap.data := by
-  obtain ⟨lin, sf, hp, hrun, hfin⟩ := handleIdx_lin_strip h ops hnt w hf
-  obtain ⟨lin', hl', hm⟩ := perm_of_map_perm (fun e : Ev => (e.op, e.res)) lin _ hp
-  exact ⟨lin', sf, hl', by simpa [strip, hm] using hrun, hfin⟩
+  obtain ⟨a, _, sf, b, c⟩ := batchLin_spec h ops hnt w hf
+  exact ⟨_, sf, a, b, c⟩
 
 /-! ### conservation -/
 
 /-- values returned by successful pops -/
-def popped (l : List (Op × Res)) : List Nat := l.filterMap (fun e => match e with | (_, .popOk v) => some v | _ => none)
+def popped (l : List (Op × Res)) : List Elem := l.filterMap (fun e => match e with | (_, .popOk v) => some v | _ => none)
 /-- values inserted by successful pushes -/
-def pushed (l : List (Op × Res)) : List Nat := l.filterMap (fun e => match e with | (.push x _, .pushOk) => some x | _ => none)
+def pushed (l : List (Op × Res)) : List Elem := l.filterMap (fun e => match e with | (.push x _, .pushOk) => some x | _ => none)
 
-theorem specStep_cases (s s1 : List Nat) (e : Op × Res) (hs : specStep s e = some s1) :
+theorem specStep_cases (s s1 : List Elem) (e : Op × Res) (hs : specStep s e = some s1) :
     (∃ x, e = (.push x false, .pushOk) ∧ s1 = x :: s) ∨ (∃ x, e = (.push x true, .pushFailed) ∧ s1 = s) ∨
-    (∃ v, e = (.pop false, .popOk v) ∧ v ∈ s ∧ (∀ y ∈ s, y ≤ v) ∧ s1 = s.erase v) ∨
+    (∃ v, e = (.pop false, .popOk v) ∧ v ∈ s ∧ (∀ y ∈ s, y.key ≤ v.key) ∧ s1 = s.erase v) ∨
     (∃ thr, e = (.pop thr, .popFailed) ∧ s = [] ∧ s1 = s) ∨ (e = (.pop true, .exc true) ∧ s ≠ [] ∧ s1 = s) := by
   unfold specStep at hs
   split at hs
@@ -171,7 +239,7 @@ theorem specStep_cases (s s1 : List Nat) (e : Op × Res) (hs : specStep s e = so
       exact Or.inr (Or.inr (Or.inr (Or.inr ⟨rfl, hc, by simpa using hs.symm⟩)))
   · simp at hs
 
-theorem specStep_conserves (s s1 : List Nat) (e : Op × Res) (hs : specStep s e = some s1) :
+theorem specStep_conserves (s s1 : List Elem) (e : Op × Res) (hs : specStep s e = some s1) :
     (s1 ++ popped [e]).Perm (s ++ pushed [e]) := by
   rcases specStep_cases s s1 e hs with ⟨x, rfl, rfl⟩ | ⟨x, rfl, rfl⟩ | ⟨v, rfl, hv, _, rfl⟩ | ⟨thr, rfl, _, rfl⟩ | ⟨rfl, _, rfl⟩
   · simp only [popped, pushed, List.filterMap_cons, List.filterMap_nil, List.append_nil]
@@ -182,7 +250,7 @@ theorem specStep_conserves (s s1 : List Nat) (e : Op × Res) (hs : specStep s e 
   · simp [popped, pushed]
   · simp [popped, pushed]
 
-theorem specRun_conserves (lin : List (Op × Res)) : ∀ (s sf : List Nat), specRun s lin = some sf →
+theorem specRun_conserves (lin : List (Op × Res)) : ∀ (s sf : List Elem), specRun s lin = some sf →
     (sf ++ popped lin).Perm (s ++ pushed lin) := by
   induction lin with
   | nil => intro s sf h; simp only [specRun, Option.some.injEq] at h; subst h; simp [popped, pushed]
@@ -213,7 +281,7 @@ theorem handleIdx_conserves (h : Heap) (ops : List (Op × Nat)) (hnt : NoPopThro
 
 /-! ### a throwing copy is isolated -/
 
-theorem pass1_throw (a b : List (Op × Nat)) (x i : Nat) : ∀ h : Heap, (pass1 h (a ++ b)).abort = none →
+theorem pass1_throw (a b : List (Op × Nat)) (x : Elem) (i : Nat) : ∀ h : Heap, (pass1 h (a ++ b)).abort = none →
     (pass1 h (a ++ (.push x true, i) :: b)).heap = (pass1 h (a ++ b)).heap ∧
     (pass1 h (a ++ (.push x true, i) :: b)).dfr = (pass1 h (a ++ b)).dfr ∧
     (pass1 h (a ++ (.push x true, i) :: b)).abort = none ∧
@@ -249,7 +317,7 @@ theorem pass1_throw (a b : List (Op × Nat)) (x i : Nat) : ∀ h : Heap, (pass1 
         obtain ⟨e1, e2, e3, e4⟩ := ih { h with data := h.data ++ [y] } hab
         exact ⟨e1, e2, e3, (e4.cons _).trans (List.Perm.swap _ _ _)⟩
 
-theorem handleIdx_throw (h : Heap) (a b : List (Op × Nat)) (x i : Nat) (hab : (handleIdx h (a ++ b)).abort = none) :
+theorem handleIdx_throw (h : Heap) (a b : List (Op × Nat)) (x : Elem) (i : Nat) (hab : (handleIdx h (a ++ b)).abort = none) :
     (handleIdx h (a ++ (.push x true, i) :: b)).heap = (handleIdx h (a ++ b)).heap ∧
     (handleIdx h (a ++ (.push x true, i) :: b)).abort = none ∧
     (handleIdx h (a ++ (.push x true, i) :: b)).log.Perm (⟨i, .push x true, .pushFailed⟩ :: (handleIdx h (a ++ b)).log) := by
